@@ -53,3 +53,117 @@ def mo(t1, t2):
 
 CONTRACTS = [interpret_int, interpret_str, mo(TInt, TInt), mo(TInt, TStr), mo(TStr, TInt), mo(TStr, TStr)]
 LEMMAS = []
+
+
+# ------------------------------------------------------------------ match_link: which raw matches pass the residue-order test
+MIdx, LIdx, Order = TKey('MIdx'), TKey('LIdx'), TKey('Order')
+Pair = TTuple(MIdx, LIdx)
+
+
+def setup_ml(cx):
+    eng = cx.eng
+    from pyvc.values import IterV
+    from pyvc.builtins import _int, getitem, b_len
+    rm = cx.val('RM', TSeq(Pair))                           # raw_match.items(): (molecule atom, link atom) pairs
+    cx.spec_env['RM'] = rm
+    resid_of = cx.uf('resid_of', [MIdx], TInt)
+    has_order = cx.uf('has_order', [LIdx], TBool)
+    order_of = cx.uf('order_of', [LIdx], Order)
+    mo_ = cx.uf('mo', [Order, TInt, Order, TInt], TBool)    # match_order(order1, resid1, order2, resid2): its own contracts
+    raw_match = Obj('raw_match', items=Builtin(lambda e: rm, 'raw_match.items'))
+    molecule = Obj('Molecule', nodes=Obj('NodeView', __getitem__=Builtin(
+        lambda e, m: Obj('atom', __getitem__=Builtin(lambda e2, k: SV(TInt, resid_of(to_z3(m, MIdx))) if k == 'resid' else
+                                                     (_ for _ in ()).throw(EngineError('atom[%r]' % (k,))), 'atom[]')), 'molecule.nodes[]')))
+
+    def link_node(e, l):
+        le = to_z3(l, LIdx)
+        return Obj('linknode',
+                   __contains__=Builtin(lambda e2, k: wrap(TBool, has_order(le)) if k == 'order' else
+                                        (_ for _ in ()).throw(EngineError('%r in link node' % (k,))), 'in'),
+                   __getitem__=Builtin(lambda e2, k: SV(Order, order_of(le)) if k == 'order' else
+                                       (_ for _ in ()).throw(EngineError('link node[%r]' % (k,))), 'linknode[]'))
+    link = Obj('Link', nodes=Obj('NodeView', __getitem__=Builtin(link_node, 'link.nodes[]')))
+    cx.spec_env['match_order'] = Builtin(lambda e, o1, r1, o2, r2: wrap(TBool, mo_(to_z3(o1, Order), to_z3(r1, TInt), to_z3(o2, Order),
+                                                                           to_z3(r2, TInt))), 'match_order')
+    pa, pb, pk = cx.uf('pair_a', [TInt], TInt), cx.uf('pair_b', [TInt], TInt), cx.uf('pair_k', [TInt, TInt], TInt)
+    NP = z3.Int('n_pairs')
+    cx.spec_env['n_pairs'] = SV(TInt, NP)
+
+    def combinations(e, items, r):
+        # assumed contract of itertools.combinations(seq, 2): every pair of positions a < b exactly once
+        if r != 2:
+            raise EngineError('combinations(_, %r)' % (r,))
+        if items.concrete is not None:
+            import itertools
+            return IterV(None, None, concrete=list(itertools.combinations(items.concrete, 2)))
+        src = items.items_of
+        mt = type_of(src)
+        me = to_z3(src)
+        n = mt.n(me)
+        p, a, b = z3.Ints('cp ca cb')
+        e.assume(NP >= 0)
+        e.assume(z3.ForAll([p], z3.Implies(z3.And(0 <= p, p < NP), z3.And(0 <= pa(p), pa(p) < pb(p), pb(p) < n, pk(pa(p), pb(p)) == p))))
+        e.assume(z3.ForAll([a, b], z3.Implies(z3.And(0 <= a, a < b, b < n), z3.And(0 <= pk(a, b), pk(a, b) < NP, pa(pk(a, b)) == a,
+                                                                            pb(pk(a, b)) == b)),
+                           patterns=[pk(a, b)]))
+
+        def item(i):
+            k = mt.key_at(me, i)
+            return (SV(mt.k, k), SV(mt.v, mt.at(me, k)))
+        return IterV(NP, lambda q: (item(pa(_int(q))), item(pb(_int(q)))))
+    cx.spec_env['combinations'] = Builtin(combinations, 'combinations')
+    return dict(molecule=molecule, link=link, raw_match=raw_match)
+
+
+SPEC_ML = {
+    'm': "lambda k: RM[k][0]",
+    'l': "lambda k: RM[k][1]",
+    # all matched atoms whose link atoms carry the same order lie in one residue
+    'consistent': "lambda: forall(lambda a, b: implies(0 <= a and a < len(RM) and 0 <= b and b < len(RM) and has_order(l(a)) and "
+                  "has_order(l(b)) and order_of(l(a)) == order_of(l(b)), resid_of(m(a)) == resid_of(m(b))))",
+    # every two different orders that occur relate their residues as match_order demands
+    # (pair_a(p) < pair_b(p), p < n_pairs, enumerate all pairs of positions in order_match: itertools.combinations)
+    'pairs_ok': "lambda om: forall(lambda p: implies(0 <= p and p < n_pairs, "
+                "mo(keyat(om, pair_a(p)), om[keyat(om, pair_a(p))], keyat(om, pair_b(p)), om[keyat(om, pair_b(p))])))",
+}
+ML_INV = [
+    "forall(lambda k: implies(0 <= k and k < _i and has_order(l(k)), order_of(l(k)) in order_match and "
+    "   order_match[order_of(l(k))] == resid_of(m(k))))",
+    "forall(lambda o: implies(o in order_match, o in g_first and 0 <= g_first[o] and g_first[o] < _i and has_order(l(g_first[o])) and "
+    "   order_of(l(g_first[o])) == o and order_match[o] == resid_of(m(g_first[o]))), Order)",
+    "len(__yielded__) == 0",
+]
+match_link_orders = FunctionContract(
+    F, 'match_link', 'C05', short='match_link[order test of one raw match]', setup=setup_ml, spec_defs=SPEC_ML,
+    spec_env=dict(MIdx=MIdx, LIdx=LIdx, Order=Order),
+    region=dict(within=["for raw_match in raw_matches:"], start="order_match = {}"),
+    locals=dict(order_match=TMap(Order, TInt), g_first=TMap(Order, TInt)),
+    result_ty=TSeq(TMap(LIdx, MIdx)),
+    requires=["forall(lambda a, b: implies(0 <= a and a < b and b < len(RM), l(a) != l(b) and m(a) != m(b)))"],
+    ghost_at={'entry': "g_first = {}"},
+    ensures=[
+        "len(result) <= 1",
+        # the raw match is passed on exactly when the orders are consistent and pairwise compatible
+        "implies(len(result) == 1, consistent())", "implies(len(result) == 1, pairs_ok(order_match))",
+        "implies(consistent() and pairs_ok(order_match), len(result) == 1)",
+        # (then order_match holds exactly the orders that occur, each with the residue number of its atoms)
+        "implies(len(result) == 1, forall(lambda k: implies(0 <= k and k < len(RM) and has_order(l(k)), order_of(l(k)) in order_match and "
+        "   order_match[order_of(l(k))] == resid_of(m(k)))) and "
+        "   forall(lambda o: implies(o in order_match, 0 <= g_first[o] and g_first[o] < len(RM) and has_order(l(g_first[o])) and "
+        "   order_of(l(g_first[o])) == o), Order))",
+        # ... as the inverse map: link atom -> molecule atom
+        "implies(len(result) == 1, forall(lambda k: implies(0 <= k and k < len(RM), l(k) in result[0] and result[0][l(k)] == m(k))))",
+    ],
+    loops={
+        'L1': LoopSpec(inv=ML_INV, modifies=['order_match', 'g_first'], locals=dict(order_match=TMap(Order, TInt), g_first=TMap(Order, TInt), g_n0=TInt),
+                       ghost_pre="g_n0 = len(order_match)",
+                       ghost_end="if len(order_match) > g_n0:\n    g_first[order] = _i"),
+        'L2': LoopSpec(inv=["forall(lambda p: implies(0 <= p and p < _i, mo(keyat(order_match, pair_a(p)), order_match[keyat(order_match, pair_a(p))], "
+                            "   keyat(order_match, pair_b(p)), order_match[keyat(order_match, pair_b(p))])))",
+                            "len(__yielded__) == 0"], modifies=[]),
+    },
+    canary=[("elif order in order_match and order_match[order] != resid:", "elif order in order_match and order_match[order] == resid:"),
+            ("if not match_order(order1, resid1, order2, resid2):", "if match_order(order1, resid1, order2, resid2):"),
+            ("yield {v: k for k, v in raw_match.items()}", "pass")],
+)
+CONTRACTS.append(match_link_orders)
